@@ -8,6 +8,8 @@ last byte written, which erasing an attribute never changes.
 -/
 import Comrak.Lemmas.HtmlSp
 import Comrak.Lemmas.HtmlSpTree
+import Comrak.Lemmas.R2XmlSp
+import Comrak.Cm
 namespace Comrak.C18
 open Comrak Bytes
 
@@ -54,10 +56,131 @@ theorem state_independent_of_sourcepos (o : HtmlOpts) (nt : NormTable) (t : Tree
     (renderT (withSp o true) nt cx t st).2 = (renderT (withSp o false) nt cx t st).2 :=
   (renderT_withSp o nt t cx st).2
 
+/-! ## XML half (model: Comrak/Xml.lean) -/
+
+/-- One start tag: erasing `sourcepos` from the attribute list written with the option on gives
+    the list written with it off; no other attribute is dropped, reordered or renamed. -/
+theorem xml_attrs_sourcepos_only_adds (o : XmlOpts) (cx : XCtx) (v : NodeValue) (sp : Sp) :
+    (xmlAttrs (withXmlSp o true) cx v sp).filter (fun a => !isXmlSpAttr a)
+      = xmlAttrs (withXmlSp o false) cx v sp :=
+  xmlAttrs_eraseSp o true cx v sp
+
+/-- **C18 (XML), whole trees, token level.** For every tree of any depth and width, every
+    indentation and context: deleting the `sourcepos` attributes from the tokens written with the
+    option on gives exactly the tokens written with the option off.  (The formatter's only state,
+    `indent`, does not depend on the option.) -/
+theorem xml_sourcepos_only_adds (o : XmlOpts) (t : Tree) :
+    eraseXmlSp (renderXmlToks (withXmlSp o true) t) = renderXmlToks (withXmlSp o false) t :=
+  renderXmlT_withSp o true t 0 {}
+
+/-- **C18 (XML), bytes.** Spelling the erased token stream (prolog included) gives byte for byte
+    the output of `format_xml` with the option off. -/
+theorem xml_sourcepos_only_adds_bytes (o : XmlOpts) (t : Tree) :
+    spellXml (eraseXmlSp (renderXmlToks (withXmlSp o true) t)) = renderXml (withXmlSp o false) t := by
+  rw [xml_sourcepos_only_adds]; rfl
+
+/-- What the option adds to one start tag, in bytes: ` sourcepos="l:c-l:c"` right after the
+    element name (nothing when the start line is 0), before all other attributes. -/
+theorem xml_sourcepos_bytes_inserted (o : XmlOpts) (cx : XCtx) (v : NodeValue) (sp : Sp) :
+    spellXAttrs (xmlAttrs (withXmlSp o true) cx v sp)
+      = (if sp.sl != 0 then xmlSpAttrBytes sp else []) ++ spellXAttrs (xmlAttrs (withXmlSp o false) cx v sp) :=
+  spell_xmlAttrs_on o cx v sp
+
+/-- With the option off no token carries the attribute: erasing is the identity there. -/
+theorem xml_off_has_no_sourcepos (o : XmlOpts) (t : Tree) :
+    eraseXmlSp (renderXmlToks (withXmlSp o false) t) = renderXmlToks (withXmlSp o false) t :=
+  renderXmlT_withSp o false t 0 {}
+
+/-! ## CommonMark half (model: Comrak/Cm.lean)
+
+`Cm.CmOpts`, the record of every option `cm.rs` reads (`width`, `ol_width`, `list_style`,
+`prefer_fenced`, `hardbreaks`, wikilinks), has no `sourcepos` field, and `Cm.renderT`/`Cm.enter`/
+`Cm.exit` discard the `Sp` component of every node (`| .node v _ cs`).  "CommonMark output does
+not depend on the option" is therefore structural in the model; it is stated below in the only
+form available: two option records that agree on the fields `cm.rs` reads render alike whatever
+else they hold, and the rendering is the same for every assignment of positions to the nodes. -/
+
+/-- All render options the three formatters read, side by side: the CommonMark formatter is a
+    function of the `cm` component only. -/
+structure AllRenderOpts where
+  sourcepos : Bool := false
+  cm : Cm.CmOpts := {}
+
+/-- `format_commonmark` as a function of the full option record. -/
+def renderCmAll (o : AllRenderOpts) (t : Tree) : Bytes := Cm.renderCm o.cm t
+
+/-- **C18 (CommonMark).** Flipping `sourcepos` in the full option record does not change the
+    CommonMark output. -/
+theorem cm_ignores_sourcepos (o : AllRenderOpts) (b : Bool) (t : Tree) :
+    renderCmAll { o with sourcepos := b } t = renderCmAll o t := rfl
+
+mutual
+/-- Replace every source position of a tree by `f` of it. -/
+def mapSpT (f : Sp → Sp) : Tree → Tree
+  | .node v sp cs => .node v (f sp) (mapSpF f cs)
+def mapSpF (f : Sp → Sp) : Forest → Forest
+  | .nil => .nil
+  | .cons t ts => .cons (mapSpT f t) (mapSpF f ts)
+end
+
+theorem mapSpT_value (f : Sp → Sp) : ∀ t : Tree, (mapSpT f t).value = t.value
+  | .node _ _ _ => rfl
+
+theorem cm_isAutolink_mapSp (f : Sp → Sp) (url title : Bytes) (cs : Forest) :
+    Cm.isAutolink url title (mapSpF f cs) = Cm.isAutolink url title cs := by
+  cases cs with
+  | nil => rfl
+  | cons t ts => cases t with | node v sp k => cases v <;> rfl
+
+theorem cm_enter_mapSp (f : Sp → Sp) (o : Cm.CmOpts) (cx : Cm.Ctx) (v : NodeValue) (cs : Forest) (st : Cm.St) :
+    Cm.enter o cx v (mapSpF f cs) st = Cm.enter o cx v cs st := by
+  cases v
+  case link url title => simp only [Cm.enter, cm_isAutolink_mapSp]
+  all_goals rfl
+
+mutual
+/-- The CommonMark formatter never looks at a source position: rewriting all of them leaves the
+    writer state after any subtree unchanged. -/
+theorem cm_renderT_mapSp (f : Sp → Sp) (o : Cm.CmOpts) :
+    ∀ (t : Tree) (cx : Cm.Ctx) (st : Cm.St), Cm.renderT o cx (mapSpT f t) st = Cm.renderT o cx t st
+  | .node v sp cs, cx, st => by
+    simp only [mapSpT, Cm.renderT, cm_enter_mapSp]
+    rw [cm_renderF_mapSp f o cs]
+theorem cm_renderF_mapSp (f : Sp → Sp) (o : Cm.CmOpts) :
+    ∀ (g : Forest) (parent grand : Option NodeValue) (hp : Bool) (st : Cm.St),
+      Cm.renderF o parent grand hp (mapSpF f g) st = Cm.renderF o parent grand hp g st
+  | .nil, _, _, _, _ => rfl
+  | .cons t ts, parent, grand, hp, st => by
+    cases ts with
+    | nil =>
+      simp only [mapSpF, Cm.renderF]
+      rw [cm_renderT_mapSp f o t]
+    | cons n r =>
+      have ih := cm_renderF_mapSp f o (.cons n r) parent grand true
+      simp only [mapSpF] at ih
+      simp only [mapSpF, Cm.renderF, mapSpT_value] at ih ⊢
+      rw [cm_renderT_mapSp f o t, ih]
+end
+
+/-- **C18 (CommonMark), positions.** The CommonMark output is the same for every assignment of
+    source positions to the nodes of the tree (the formatter has no way to print them). -/
+theorem cm_ignores_positions (f : Sp → Sp) (o : Cm.CmOpts) (t : Tree) :
+    Cm.renderCm o (mapSpT f t) = Cm.renderCm o t := by
+  simp only [Cm.renderCm, cm_renderT_mapSp]
+
 /-! Non-vacuity -/
 example : eraseSp (enter (withSp {} true) {} {} .blockQuote { sl := 1, sc := 1, el := 2, ec := 3 } .nil {}).1
     = [.op S.t_blockquote [], nl] := by decide
 example : (enter (withSp {} true) {} {} .blockQuote { sl := 1, sc := 1, el := 2, ec := 3 } .nil {}).1
     ≠ [.op S.t_blockquote [], nl] := by decide
+
+-- XML: a paragraph with a text child; the option adds ` sourcepos="1:1-1:3"` to both start tags
+example : renderXmlToks (withXmlSp {} true)
+      (.node .paragraph ⟨1, 1, 1, 3⟩ (.cons (.node (.text [0x61]) ⟨1, 1, 1, 3⟩ .nil) .nil))
+    ≠ renderXmlToks (withXmlSp {} false)
+      (.node .paragraph ⟨1, 1, 1, 3⟩ (.cons (.node (.text [0x61]) ⟨1, 1, 1, 3⟩ .nil) .nil)) := by decide
+example : xmlSpAttrBytes ⟨1, 1, 1, 3⟩ =
+    [0x20, 0x73, 0x6F, 0x75, 0x72, 0x63, 0x65, 0x70, 0x6F, 0x73, 0x3D, 0x22, 0x31, 0x3A, 0x31, 0x2D, 0x31, 0x3A, 0x33, 0x22] := by
+  decide
 
 end Comrak.C18
